@@ -140,9 +140,12 @@ Definition spec_sub (c : case) (i : nat) (qu : list path * bool) : list (nat * N
                (map fst (k_dump c) ++ upd_paths rs)
            then [] else [(i, 6%N)])).
 
+(* a run that hung (a write that did not return, senders that never settled -- after the
+   harness re-ran it twice) is reported as that and as nothing else: the rest of what was
+   observed is incomplete and is not judged *)
 Definition spec_side (c : case) : list (nat * N) :=
-  (if k_bad c || negb (k_returned c) then [(0%nat, 2%N)] else [])
-  ++ flat_map (fun iq => spec_sub c (fst iq) (snd iq))
+  if k_bad c || negb (k_returned c) then [(0%nat, 2%N)] else
+  flat_map (fun iq => spec_sub c (fst iq) (snd iq))
               (combine (seq 0 (List.length (k_subs c))) (k_subs c)).
 
 Definition check_case (c : case) : list (nat * N) := model_side c ++ spec_side c.
